@@ -262,8 +262,14 @@ fn rate_class(kind: &str, r: f64, got: f64) -> &'static str {
 fn rate_grid(run: &mut Run, only: Option<&str>, modes: &[u8]) {
     for &mode in modes {
         for kind in ["DT", "HT", "NC", "DC"] {
-            for i in 50..=200u32 {
-                let r = f64::from(i) / 100.0;
+            // the 0.01 grid, then rates OFF that grid (thousandths, a few odd doubles): seed
+            // C08-lazer-speed-change-snapped-to-grid rounded the lazer rate to 0.01 and was invisible on the grid
+            let off_grid: [f64; 14] = [
+                0.501, 0.625, 0.904, 0.999, 1.001, 1.255, 1.337, 1.499, 1.501, 1.999,
+                1.0 + 1.0 / 1073741824.0, 0.75 + 1e-9, 1.5 - 1e-12, std::f64::consts::FRAC_PI_2,
+            ];
+            for i in 50..=214u32 {
+                let r = if i <= 200 { f64::from(i) / 100.0 } else { off_grid[(i - 201) as usize] };
                 let id = format!("rate-{}-{kind}-{i}", mode_name(mode));
                 if only.is_some_and(|o| o != id) {
                     continue;
@@ -532,7 +538,8 @@ fn e2e_spellings(run: &mut Run, maps: &[E2eMap], sets: &[u32], only: Option<&str
 fn e2e_rate(run: &mut Run, maps: &[E2eMap], rates: &[(&'static str, u32)], only: Option<&str>) {
     for m in maps {
         for &(kind, i) in rates {
-            let r = f64::from(i) / 100.0;
+            // thousandths (rates off the 0.01 grid included)
+            let r = f64::from(i) / 1000.0;
             let id = format!("e2e-rate-{}-{kind}-{i}", m.id);
             if only.is_some_and(|o| o != id) {
                 continue;
@@ -717,10 +724,10 @@ pub fn run(tier: &str, seed: u64, only: Option<&str>) -> Run {
         sets.push(bits);
     }
     e2e_spellings(&mut run, &maps, &sets, only);
-    let mut rates: Vec<(&'static str, u32)> = vec![("DC", 87), ("NC", 90), ("DT", 125), ("HT", 60), ("NC", 150), ("DC", 75), ("DT", 199), ("HT", 99)];
+    let mut rates: Vec<(&'static str, u32)> = vec![("DC", 870), ("NC", 900), ("DT", 1250), ("HT", 600), ("NC", 1500), ("DC", 750), ("DT", 1990), ("HT", 990), ("DT", 1255), ("HT", 904), ("NC", 1337), ("DC", 625)];
     if thorough {
         for kind in ["DT", "HT", "NC", "DC"] {
-            for i in (50..=200).step_by(7) {
+            for i in (500..=2000).step_by(73) {
                 rates.push((kind, i));
             }
         }
